@@ -741,6 +741,178 @@ fn select_level(run: &mut Run, rng: &mut Rng, n: usize) {
 // re-computing what chrono computes.
 // ---------------------------------------------------------------------------------------------
 
+/// does the LOCAL civil time of this instant lie inside chrono's range? (East of UTC the last hours of the range, west of
+/// UTC the first hours, have a local time outside it: the civil fields are then not defined for the truncation.)
+fn local_in_range(ts: &chrono::DateTime<chrono::Local>) -> bool {
+    use chrono::Offset;
+    ts.naive_utc().checked_add_offset(ts.offset().fix()).is_some()
+}
+
+/// `date_trunc('year'|'month'|'day', ts)` judged by the local civil fields of its result (`ev`): the first moment of that local
+/// period, not after ts; an error only when that local start does not exist (or ts has no local civil time in range)
+fn judge_trunc_period(part: &str, ts: chrono::DateTime<chrono::Local>, ev: Ev, desc: &str) {
+    use chrono::{Datelike, Local, TimeZone, Timelike};
+    if let Ev::Panic(m) = &ev { println!("FAIL panic:date-trunc :: {} panicked: {}", desc, m.replace('\n', " ")); return; }
+    if !local_in_range(&ts) { return; }
+    match ev {
+        Ev::Ok(Value::Timestamp(r)) => {
+            let first = r.hour() == 0 && r.minute() == 0 && r.second() == 0 && r.nanosecond() == 0
+                && r.year() == ts.year()
+                && match part { "year" => r.month() == 1 && r.day() == 1, "month" => r.month() == ts.month() && r.day() == 1, _ => r.month() == ts.month() && r.day() == ts.day() };
+            if !first || r > ts {
+                println!("FAIL date-trunc-not-local-period-start :: {} gave {} which is not the first moment of that local {}", desc, r, part);
+            }
+        }
+        Ev::Ok(v) => println!("FAIL date-trunc-not-a-timestamp :: {} gave {}", desc, v),
+        Ev::Err(_) => {
+            // only when the local start of the period does not exist
+            let (y, m, d) = match part { "year" => (ts.year(), 1, 1), "month" => (ts.year(), ts.month(), 1), _ => (ts.year(), ts.month(), ts.day()) };
+            if Local.with_ymd_and_hms(y, m, d, 0, 0, 0).single().is_some() {
+                println!("FAIL date-trunc-error-although-start-exists :: {}", desc);
+            }
+        }
+        Ev::Panic(_) => {}
+    }
+}
+
+/// hour / minute / second: the start of that local hour / minute / second — not after ts, less than one span
+/// before it, same local date and hour, the smaller local fields zero (zones with :30 / :45 offsets tell local from
+/// UTC truncation apart). An error is accepted only at a DST switch (the local target is ambiguous or missing).
+fn judge_trunc_span(part2: &str, span: i64, ts: chrono::DateTime<chrono::Local>, ev: Ev, desc2: &str) {
+    use chrono::{Local, TimeZone, Timelike};
+    if let Ev::Panic(m) = &ev { println!("FAIL panic:date-trunc :: {} panicked: {}", desc2, m.replace('\n', " ")); return; }
+    if !local_in_range(&ts) { return; }
+    match ev {
+        Ev::Ok(Value::Timestamp(r)) => {
+            let fields = r.nanosecond() == 0 && r.date_naive() == ts.date_naive() && r.hour() == ts.hour()
+                && match part2 { "hour" => r.minute() == 0 && r.second() == 0, "minute" => r.minute() == ts.minute() && r.second() == 0, _ => r.minute() == ts.minute() && r.second() == ts.second() };
+            let near = r <= ts && (ts.timestamp() - r.timestamp()) <= span;
+            // at a switch the same local hour may occur twice; only the field check is demanded there
+            if !fields || !near {
+                let switch = !local_in_range(&r) || Local.from_local_datetime(&r.naive_local()).single().is_none() || (ts.offset() != r.offset());
+                if !switch { println!("FAIL date-trunc-not-local-{}-start :: {} gave {}", part2, desc2, r); }
+            }
+        }
+        Ev::Ok(v) => println!("FAIL date-trunc-not-a-timestamp :: {} gave {}", desc2, v),
+        Ev::Err(_) => {
+            // the code truncates through the local time counted in nanoseconds in 64 bits (chrono's `duration_trunc`): outside
+            // 1677-09-21 … 2262-04-11 it reports `Failed to truncate timestamp`. The sentence is silent on that limit; an error
+            // (not a wrong value, not a panic) is accepted there — mirrored, not demanded
+            if ts.naive_local().and_utc().timestamp_nanos_opt().is_none() { return; }
+            let target = ts.naive_local().with_nanosecond(0).and_then(|t| if part2 == "second" { Some(t) } else { t.with_second(0) }).and_then(|t| if part2 == "hour" { t.with_minute(0) } else { Some(t) });
+            let plain = target.map(|t| Local.from_local_datetime(&t).single().is_some()).unwrap_or(false);
+            if plain { println!("FAIL date-trunc-error-although-start-exists :: {}", desc2); }
+        }
+        Ev::Panic(_) => {}
+    }
+}
+
+/// Composition at the ends of the range (D73): `ts ± iv` with ts in the first / last day of chrono's range (years -262143 /
+/// 262142) or ordinary and iv a few hours of either sign, then EVERY part of `date_trunc`, every part of `EXTRACT` and the
+/// text cast applied to the sum. Judged: nothing panics; the sum is the instant ts ± iv exactly; where the sum's local civil
+/// time is in range, `date_trunc` is judged by the local fields of its result as above (milliseconds / microseconds: not
+/// after the sum, less than one unit before it, a whole number of units); `EXTRACT(part FROM e)` is the field that
+/// `(e)::text` shows (two different routes through chrono: field accessors and the formatter) and `EXTRACT(EPOCH …)` is
+/// the instant. Returns the number of checks.
+fn tz_composed(rng: &mut Rng, n: usize) -> usize {
+    use chrono::{Duration, Local, NaiveDate, TimeZone};
+    let mut checks = 0usize;
+    for _ in 0..n {
+        let hms = |rng: &mut Rng, hours: &[u32]| (*rng.pick(hours), *rng.pick(&[0u32, 1, 29, 30, 59]), *rng.pick(&[0u32, 59]));
+        let base = match rng.below(6) {
+            0 | 1 => { let (h, m, s) = hms(rng, &[0, 9, 10, 12, 13, 20, 21, 22, 23, 23]); NaiveDate::from_ymd_opt(262142, 12, 31).and_then(|d| d.and_hms_opt(h, m, s)).and_then(|t| Local.from_local_datetime(&t).latest()) }
+            2 | 3 => { let (h, m, s) = hms(rng, &[0, 0, 1, 2, 3, 11, 12, 13, 14, 23]); NaiveDate::from_ymd_opt(-262143, 1, 1).and_then(|d| d.and_hms_opt(h, m, s)).and_then(|t| Local.from_local_datetime(&t).latest()) }
+            _ => Local.timestamp_opt(1_500_000_000i64 + rng.range(0, 250_000_000), 0).single(),
+        };
+        let base = match base { Some(b) => b, None => continue };
+        let iv = Duration::milliseconds(rng.range(-15 * 3600, 15 * 3600) * 1000 + *rng.pick(&[0i64, 0, 1, 500, 999]));
+        let subtract = rng.chance(1, 2);
+        let inner = ExpressionTree::Arithmetic { operator: if subtract { ArithmeticOperator::Subtract } else { ArithmeticOperator::Add }, left: bx(lit(Value::Timestamp(base))), right: bx(lit(Value::Interval(iv))) };
+        let idesc = format!("{} {} interval of {} ms [epoch ms {}]", base, if subtract { "-" } else { "+" }, iv.num_milliseconds(), base.timestamp_millis());
+        checks += 1;
+        let sum = match eval_real(&[], &inner) {
+            Ev::Ok(Value::Timestamp(s)) => s,
+            Ev::Panic(m) => { println!("FAIL panic:timestamp-arithmetic :: {} panicked: {}", idesc, m.replace('\n', " ")); continue; }
+            _ => continue,   // beyond the range: an error is the documented answer (D51)
+        };
+        let want_ms = base.timestamp_millis() as i128 + if subtract { -(iv.num_milliseconds() as i128) } else { iv.num_milliseconds() as i128 };
+        if sum.timestamp_millis() as i128 != want_ms {
+            println!("FAIL timestamp-arithmetic-wrong-instant :: {} gave {} [epoch ms {}], the instant is epoch ms {}", idesc, sum, sum.timestamp_millis(), want_ms);
+            continue;
+        }
+        let in_range = local_in_range(&sum);
+        for part in &["year", "month", "day", "hour", "minute", "second", "milliseconds", "microseconds"] {
+            let e = call(Function::TruncateTimestamp, vec![lit(Value::String((*part).to_owned())), inner.clone()]);
+            let desc = format!("date_trunc('{}', {}){}", part, idesc, if in_range { "" } else { " (the sum's local time is outside the range)" });
+            checks += 1;
+            let ev = eval_real(&[], &e);
+            match *part {
+                "year" | "month" | "day" => judge_trunc_period(part, sum, ev, &desc),
+                "hour" => judge_trunc_span(part, 3600, sum, ev, &desc),
+                "minute" => judge_trunc_span(part, 60, sum, ev, &desc),
+                "second" => judge_trunc_span(part, 1, sum, ev, &desc),
+                _ => {
+                    let unit_ns: i64 = if *part == "milliseconds" { 1_000_000 } else { 1_000 };
+                    match ev {
+                        Ev::Panic(m) => println!("FAIL panic:date-trunc :: {} panicked: {}", desc, m.replace('\n', " ")),
+                        Ev::Ok(Value::Timestamp(r)) if in_range => {
+                            let gap = sum.signed_duration_since(r).num_nanoseconds().unwrap_or(-1);
+                            if r > sum || gap < 0 || gap >= unit_ns || (r.timestamp_subsec_nanos() as i64) % unit_ns != 0 {
+                                println!("FAIL date-trunc-not-{}-start :: {} gave {}", part, desc, r);
+                            }
+                        }
+                        Ev::Ok(Value::Timestamp(_)) | Ev::Err(_) => {}
+                        Ev::Ok(v) => println!("FAIL date-trunc-not-a-timestamp :: {} gave {}", desc, v),
+                    }
+                }
+            }
+        }
+        // the text of the sum, read field by field: [+-]Y…-MM-DD HH:MM:SS.mmm
+        let text = match eval_real(&[], &ExpressionTree::TypeConversion { operand: bx(inner.clone()), convert_to_type: ValueType::String }) {
+            Ev::Ok(Value::String(t)) => Some(t),
+            Ev::Panic(m) => { println!("FAIL panic:timestamp-to-text :: ({})::text panicked: {}", idesc, m.replace('\n', " ")); None }
+            _ => None,
+        };
+        checks += 1;
+        let fields: Option<Vec<i64>> = text.as_ref().and_then(|t| {
+            let (date, time) = { let mut it = t.splitn(2, ' '); (it.next()?, it.next()?) };
+            let neg = date.starts_with('-');
+            let d: Vec<&str> = date.trim_start_matches(|c| c == '+' || c == '-').split('-').collect();
+            let tm: Vec<&str> = time.split(|c| c == ':' || c == '.').collect();
+            if d.len() != 3 || tm.len() != 4 { return None; }
+            let y: i64 = d[0].parse().ok()?;
+            Some(vec![if neg { -y } else { y }, d[1].parse().ok()?, d[2].parse().ok()?, tm[0].parse().ok()?, tm[1].parse().ok()?, tm[2].parse().ok()?])
+        });
+        if text.is_some() && fields.is_none() { println!("FAIL timestamp-text-unreadable :: ({})::text = {:?}", idesc, text); }
+        for (k, f) in [Function::TimestampExtractYear, Function::TimestampExtractMonth, Function::TimestampExtractDay, Function::TimestampExtractHour, Function::TimestampExtractMinute, Function::TimestampExtractSecond].iter().enumerate() {
+            checks += 1;
+            match eval_real(&[], &call(f.clone(), vec![inner.clone()])) {
+                Ev::Panic(m) => println!("FAIL panic:extract :: EXTRACT({} FROM {}) panicked: {}", func_name(f), idesc, m.replace('\n', " ")),
+                Ev::Ok(Value::Int(v)) => { if let Some(fs) = &fields { if fs[k] != v { println!("FAIL extract-differs-from-text-field :: {} of {} is {}, the text of the same value is {:?}", func_name(f), idesc, v, text); } } }
+                Ev::Ok(v) => println!("FAIL extract-not-an-int :: {} of {} gave {}", func_name(f), idesc, v),
+                Ev::Err(_) => println!("FAIL extract-error-on-a-timestamp :: {} of {}", func_name(f), idesc),
+            }
+        }
+        checks += 1;
+        match eval_real(&[], &call(Function::TimestampExtractEpoch, vec![inner.clone()])) {
+            Ev::Panic(m) => println!("FAIL panic:extract :: EXTRACT(EPOCH FROM {}) panicked: {}", idesc, m.replace('\n', " ")),
+            Ev::Ok(Value::Float(x)) => { if x.0 != want_ms as f64 / 1000.0 { println!("FAIL extract-epoch-wrong :: EXTRACT(EPOCH FROM {}) gave {}, the instant is {} ms", idesc, x.0, want_ms); } }
+            Ev::Ok(v) => println!("FAIL extract-not-a-real :: EXTRACT(EPOCH FROM {}) gave {}", idesc, v),
+            Ev::Err(_) => println!("FAIL extract-error-on-a-timestamp :: EXTRACT(EPOCH FROM {})", idesc),
+        }
+        // comparisons of such values: the sum against its own truncation (never after it) and against the base
+        checks += 1;
+        let trunc_hour = call(Function::TruncateTimestamp, vec![lit(Value::String("hour".to_owned())), inner.clone()]);
+        let cmp = ExpressionTree::Compare { operator: CompareOperator::LessThanOrEqual, left: bx(trunc_hour), right: bx(inner.clone()) };
+        match eval_real(&[], &cmp) {
+            Ev::Panic(m) => println!("FAIL panic:compare :: date_trunc('hour', e) <= e for e = {} panicked: {}", idesc, m.replace('\n', " ")),
+            Ev::Ok(Value::Bool(false)) => println!("FAIL date-trunc-after-its-argument :: date_trunc('hour', e) <= e is false for e = {}", idesc),
+            _ => {}
+        }
+    }
+    checks
+}
+
 pub fn tz_child(seed: u64, n: usize) {
     use chrono::{Datelike, Local, TimeZone, Timelike};
     use chrono::NaiveDate;
@@ -777,60 +949,24 @@ pub fn tz_child(seed: u64, n: usize) {
         let e = call(Function::TruncateTimestamp, vec![ExpressionTree::Value(Value::String(part.to_owned())), ExpressionTree::Value(Value::Timestamp(ts))]);
         checks += 1;
         let desc = format!("date_trunc('{}', {}) [epoch {}]", part, ts, secs);
-        match eval_real(&[], &e) {
-            Ev::Ok(Value::Timestamp(r)) => {
-                let first = r.hour() == 0 && r.minute() == 0 && r.second() == 0 && r.nanosecond() == 0
-                    && r.year() == ts.year()
-                    && match part { "year" => r.month() == 1 && r.day() == 1, "month" => r.month() == ts.month() && r.day() == 1, _ => r.month() == ts.month() && r.day() == ts.day() };
-                if !first || r > ts {
-                    println!("FAIL date-trunc-not-local-period-start :: {} gave {} which is not the first moment of that local {}", desc, r, part);
-                }
-            }
-            Ev::Ok(v) => println!("FAIL date-trunc-not-a-timestamp :: {} gave {}", desc, v),
-            Ev::Err(_) => {
-                // only when the local start of the period does not exist
-                let (y, m, d) = match part { "year" => (ts.year(), 1, 1), "month" => (ts.year(), ts.month(), 1), _ => (ts.year(), ts.month(), ts.day()) };
-                if Local.with_ymd_and_hms(y, m, d, 0, 0, 0).single().is_some() {
-                    println!("FAIL date-trunc-error-although-start-exists :: {}", desc);
-                }
-            }
-            Ev::Panic(m) => println!("FAIL panic:date-trunc :: {} panicked: {}", desc, m.replace('\n', " ")),
-        }
-        // hour / minute / second: the start of that local hour / minute / second — not after ts, less than one span
-        // before it, same local date and hour, the smaller local fields zero (zones with :30 / :45 offsets tell local from
-        // UTC truncation apart). An error is accepted only at a DST switch (the local target is ambiguous or missing).
+        judge_trunc_period(part, ts, eval_real(&[], &e), &desc);
         let (part2, span) = *rng.pick(&[("hour", 3600i64), ("minute", 60), ("second", 1)]);
         let e2 = call(Function::TruncateTimestamp, vec![ExpressionTree::Value(Value::String(part2.to_owned())), ExpressionTree::Value(Value::Timestamp(ts))]);
         checks += 1;
         let desc2 = format!("date_trunc('{}', {}) [epoch {}]", part2, ts, secs);
-        match eval_real(&[], &e2) {
-            Ev::Ok(Value::Timestamp(r)) => {
-                let fields = r.nanosecond() == 0 && r.date_naive() == ts.date_naive() && r.hour() == ts.hour()
-                    && match part2 { "hour" => r.minute() == 0 && r.second() == 0, "minute" => r.minute() == ts.minute() && r.second() == 0, _ => r.minute() == ts.minute() && r.second() == ts.second() };
-                let near = r <= ts && (ts.timestamp() - r.timestamp()) <= span;
-                // at a switch the same local hour may occur twice; only the field check is demanded there
-                if !fields || !near {
-                    let switch = Local.from_local_datetime(&r.naive_local()).single().is_none() || (ts.offset() != r.offset());
-                    if !switch { println!("FAIL date-trunc-not-local-{}-start :: {} gave {}", part2, desc2, r); }
-                }
-            }
-            Ev::Ok(v) => println!("FAIL date-trunc-not-a-timestamp :: {} gave {}", desc2, v),
-            Ev::Err(_) => {
-                let target = ts.naive_local().with_nanosecond(0).and_then(|t| if part2 == "second" { Some(t) } else { t.with_second(0) }).and_then(|t| if part2 == "hour" { t.with_minute(0) } else { Some(t) });
-                let plain = target.map(|t| Local.from_local_datetime(&t).single().is_some()).unwrap_or(false);
-                if plain { println!("FAIL date-trunc-error-although-start-exists :: {}", desc2); }
-            }
-            Ev::Panic(m) => println!("FAIL panic:date-trunc :: {} panicked: {}", desc2, m.replace('\n', " ")),
-        }
+        judge_trunc_span(part2, span, ts, eval_real(&[], &e2), &desc2);
     }
+    checks += tz_composed(&mut rng, n);
     println!("CHECKS {}", checks);
 }
 
 fn tz_stream(run: &mut Run, p: &Params) {
-    let zones: &[&str] = if p.tier_thorough { &["CET-1CEST,M3.5.0,M10.5.0/3", "America/Sao_Paulo", "Europe/London", "Australia/Lord_Howe", "America/St_Johns", "Asia/Kathmandu"] } else { &["CET-1CEST,M3.5.0,M10.5.0/3", "America/Sao_Paulo"] };
+    // east and west of UTC (the range-end cases need both), whole-hour, half-hour and 45-minute offsets, DST gaps at midnight, the date line
+    let zones: &[&str] = if p.tier_thorough { &["CET-1CEST,M3.5.0,M10.5.0/3", "America/Sao_Paulo", "Europe/London", "Australia/Lord_Howe", "America/St_Johns", "Asia/Kathmandu", "Asia/Beirut", "Asia/Tokyo", "Pacific/Kiritimati", "Pacific/Pago_Pago", "Pacific/Chatham"] }
+        else { &["CET-1CEST,M3.5.0,M10.5.0/3", "America/Sao_Paulo", "Australia/Lord_Howe", "Asia/Beirut", "Asia/Tokyo", "America/St_Johns", "Pacific/Kiritimati", "Pacific/Pago_Pago"] };
     let exe = match std::env::current_exe() { Ok(e) => e, Err(_) => return };
     for zone in zones {
-        let out = std::process::Command::new(&exe).env("TZ", zone).arg("c03tz").arg(p.seed.to_string()).arg(p.n(400, 20_000).to_string()).output();
+        let out = std::process::Command::new(&exe).env("TZ", zone).arg("c03tz").arg(p.seed.to_string()).arg(p.n(150, 8_000).to_string()).output();
         match out {
             Ok(o) => {
                 let text = String::from_utf8_lossy(&o.stdout).to_string();
@@ -848,7 +984,7 @@ fn tz_stream(run: &mut Run, p: &Params) {
             Err(e) => run.notes.push(format!("could not start TZ child: {}", e)),
         }
     }
-    run.notes.push("local time zones: date_trunc to year / month / day judged by the local civil fields of its result in child processes with DST zones".to_owned());
+    run.notes.push("local time zones (child processes, zones east and west of UTC): date_trunc judged by the local civil fields of its result; composition at both ends of the range — every date_trunc / EXTRACT part and the text cast over ts ± iv, EXTRACT against the text's fields, the sum against the instant".to_owned());
 }
 
 pub fn run(p: &Params) -> Run {
